@@ -26,14 +26,27 @@ class PathV:
     def __init__(self, node, text, via_link=None):
         self.node, self.text, self.via_link = node, text, via_link
 
+    @staticmethod
+    def norm(text):
+        """std::path::Path equality / hashing is by components: `.` (except a leading one) and repeated `/` vanish"""
+        comps = text.split('/')
+        out = []
+        for i, c in enumerate(comps):
+            if c == '' and i > 0:
+                continue
+            if c == '.' and i > 0:
+                continue
+            out.append(c)
+        return '/'.join(out) if out != [''] else '/'
+
     def map_key(self, ctx):
-        return ('p', self.text)
+        return ('p', PathV.norm(self.text))
 
     def clone_model(self, ctx):
         return PathV(self.node, self.text, self.via_link)
 
     def eq_model(self, ctx, other):
-        return BoolVal(self.text == other.text)
+        return BoolVal(PathV.norm(self.text) == PathV.norm(other.text))
 
     def as_str(self, ctx):
         return Str(self.text)
@@ -199,6 +212,10 @@ def as_path(ctx, v):
     v = ctx.deref(v)
     if isinstance(v, PathV):
         return v
+    if isinstance(v, CanonStr):
+        fs = fs_of(ctx)
+        canon = getattr(fs, 'canon', None)
+        return PathV(v.node, canon[v.node] if canon and v.node in canon else '<canonical path of n%s>' % v.node)
     if isinstance(v, Str) and v.s is not None:
         return path_from_text(ctx, v.s)
     raise Unmodelled('expected path, got %r' % (type(v).__name__,))
@@ -368,6 +385,51 @@ def models():
             return h(ctx, p)
         # not following: the result is only used as the path to enter, which ok_to_visit_dir refuses
         return ok(PathV(None, '<link target of n%s>' % p.node, via_link=p.node))
+
+    @reg(r'^(std::path::)?Path::is_relative$|^(std::path::)?Path::is_absolute$')
+    def path_is_relative(ctx, args, callee):
+        p = as_path(ctx, args[0])
+        rel = not (p.text.startswith('/') or p.text.startswith('<'))
+        return BoolVal(rel if 'is_relative' in callee else not rel)
+
+    @reg(r'^(std::path::)?Path::parent$')
+    def path_parent(ctx, args, callee):
+        fs = fs_of(ctx)
+        p = as_path(ctx, args[0])
+        if '/' not in p.text.rstrip('/'):
+            return some(Ref(Cell(PathV(None, ''))))
+        ptxt = p.text.rsplit('/', 1)[0]
+        node = fs.known_parent.get(p.node) if p.node is not None else None
+        return some(Ref(Cell(PathV(node, ptxt))))
+
+    @reg(r'^(std::path::)?Path::join$')
+    def path_join(ctx, args, callee):
+        fs = fs_of(ctx)
+        a = as_path(ctx, args[0]); b = as_path(ctx, args[1])
+        h = ctx.ghost.get('join_hook')
+        if h:
+            return h(ctx, a, b)
+        return PathV(b.node, a.text + '/' + b.text, b.via_link)
+
+    @reg(r'^(std::path::)?Path::is_dir$|^(std::path::)?Path::exists$')
+    def path_is_dir(ctx, args, callee):
+        fs = fs_of(ctx)
+        p = as_path(ctx, args[0])
+        h = ctx.ghost.get('is_dir_hook')
+        if h:
+            return h(ctx, p, callee)
+        n = p.node
+        if n is None and p.via_link is not None:
+            # base model: the (unresolved) target of link via_link — one solver Boolean, not a fork per target
+            L = p.via_link
+            tgt_dir = Or([And(fs.target[L] == BitVecVal(t, 8), fs.isdir(t)) for t in range(fs.M)])
+            tgt_any = Or([fs.target[L] == BitVecVal(t, 8) for t in range(fs.M)])
+            return tgt_any if 'exists' in callee else tgt_dir
+        if n is None:
+            return BoolVal(False)
+        if 'exists' in callee:
+            return BoolVal(True)
+        return fs.isdir(n)
 
     @reg(r'^git2::Repository::discover$|^git2::Repository::open$|^Repository::discover$|^Repository::open$')
     def repo_none(ctx, args, callee):
